@@ -1,5 +1,6 @@
 (* A character-level terminal of width w (w >= 1), infinite height: rows of cells, a cursor, deferred
-   auto-wrap, LF = next row column 0, CR, cursor up, erase below.  Used by C15 / C16. *)
+   auto-wrap, LF = next row column 0, CR, cursor up, erase below; a colour/attribute sequence (SGR, ESC [ params m)
+   occupies no cell and moves nothing.  Used by C15 / C16 / C19. *)
 From Clikit Require Import Base.Prelude.
 
 Notation row := (list N) (only parsing).
@@ -22,7 +23,7 @@ Fixpoint upd_row (rs : list row) (i : nat) (f : row -> row) : list row :=
   | S i', r :: t => r :: upd_row t i' f
   end.
 
-Inductive emit := Ch (c : N) | Nl | Cr | Up (n : nat) | EraseBelow | EraseLine.
+Inductive emit := Ch (c : N) | Nl | Cr | Up (n : nat) | EraseBelow | EraseLine | Sgr (params : list N).
 
 Definition feed1 (w : nat) (t : term) (e : emit) : term :=
   match e with
@@ -36,6 +37,7 @@ Definition feed1 (w : nat) (t : term) (e : emit) : term :=
       {| rows := firstn (cr t) (rows t) ++ [firstn (cc t) (nth (cr t) (rows t) [])]; cr := cr t; cc := cc t |}
   | EraseLine =>   (* ESC[2K: the whole current row *)
       {| rows := upd_row (rows t) (cr t) (fun _ => []); cr := cr t; cc := cc t |}
+  | Sgr _ => t     (* ESC [ params m: the look of the cells written next, no cell and no cursor movement *)
   end.
 Definition feed (w : nat) (t : term) (es : list emit) : term := fold_left (feed1 w) es t.
 
@@ -54,6 +56,7 @@ Definition enc_emit (e : emit) : sexp :=
   match e with
   | Ch c => L [A 0%Z; sN c] | Nl => L [A 1%Z] | Cr => L [A 2%Z] | Up n => L [A 3%Z; A (Z.of_nat n)]
   | EraseBelow => L [A 4%Z] | EraseLine => L [A 5%Z]
+  | Sgr p => L [A 9%Z; sStr ((27 :: 91 :: p) ++ [109])%N]     (* the whole sequence, as harness/termemu.py reports it *)
   end.
 Definition enc_term (t : term) : sexp :=
   L [sList sStr (rows t); A (Z.of_nat (cr t)); A (Z.of_nat (cc t))].
